@@ -100,9 +100,17 @@ def ActOk (c : Cfg) (pend : Bytes) (pp1 : PP) (l2 : ML) (r : PP × ML × Flow) :
   r.2.2 ≠ .ret ∧ MBase c r.1 ∧ MInv c r.1 (r.1.buf ++ pend) ∧ r.2.1.ioff = 0 ∧ r.2.1.poff = l2.poff ∧
   ((r.2.2 = .gotoEnd ∨ r.2.1.stateChanged = false) → Quiescent r.1) ∧ (r.2.2 = .gotoEnd → r.1.buf = pp1.buf)
 
+theorem if_fault (q : PP) (hf : q.fault = none) :
+    (if q.fault.isSome = true then Flow.ret else Flow.again) = Flow.again := by simp [hf]
+
+theorem ActOk.of_again {c : Cfg} {pend : Bytes} {pp : PP} {l : ML} {q : PP} {l' : ML} (hf : q.fault = none)
+    (h : ActOk c pend pp l (q, l', .again)) :
+    ActOk c pend pp l (q, l', if q.fault.isSome = true then .ret else .again) := by
+  rw [if_fault q hf]; exact h
+
 theorem delivers_nil : Delivers [] [] := rfl
 
-theorem bnd0_step (c : Cfg) (hc : CfgOk c) (pp : PP) (l : ML) (pend : Bytes) (hb : MBase c pp)
+theorem bnd0_hit_step (c : Cfg) (hc : CfgOk c) (pp : PP) (l : ML) (pend : Bytes) (hb : MBase c pp)
     (hrn : pp.skipRn = .inactive) (hs : pp.state = .init) (he : pp.evs = [])
     (hm : pp.metaOf = none4)
     (hX : pp.buf ++ pend = sDashDash ++ c.B ++ afterB c.B c.items)
@@ -114,7 +122,7 @@ theorem bnd0_step (c : Cfg) (hc : CfgOk c) (pp : PP) (l : ML) (pend : Bytes) (hb
     rw [act_main_again pp l _ _ hrn hms]
     simp only [again_zero pp l hio, hb.fault]
     refine ⟨by simp, hb, ?_, hio, rfl, fun _ => ?_, by simp⟩
-    · exact .main _ (Or.inl ⟨hrn, hX⟩) (.bnd0 hs he hm rfl)
+    · exact .main _ (Or.inl ⟨hrn, hX⟩) (.bnd0 [] hs he hm rfl (by intro k hk; cases hk))
     · exact Or.inr ⟨hrn, Or.inl ⟨Or.inl hs, by rw [hb.bnd]; exact hshort⟩⟩
   · obtain ⟨a', ha, hp⟩ : ∃ a', pp.buf = sDashDash ++ c.B ++ a' ∧ afterB c.B c.items = a' ++ pend := by
       rcases List.append_eq_append_iff.mp hX with ⟨a', h1, h2⟩ | ⟨c', h1, h2⟩
@@ -148,6 +156,82 @@ theorem bnd0_step (c : Cfg) (hc : CfgOk c) (pp : PP) (l : ML) (pend : Bytes) (hb
         · show Delivers pp.evs []; rw [he]; rfl
         · show it.lines.foldl hdrM pp.metaOf = it.md
           rw [hm]; exact hpo.2
+    · rcases h with h | h <;> simp at h
+
+theorem bnd0_step (c : Cfg) (hc : CfgOk c) (pp : PP) (l : ML) (pend : Bytes) (hb : MBase c pp)
+    (hrn : pp.skipRn = .inactive) (pre : Bytes) (hs : pp.state = .init) (he : pp.evs = [])
+    (hm : pp.metaOf = none4)
+    (hX : pp.buf ++ pend = pre ++ (sDashDash ++ c.B ++ afterB c.B c.items))
+    (hpre : ∀ k, k < pre.length →
+      slice (pre ++ (sDashDash ++ c.B ++ afterB c.B c.items)) k (k + (2 + c.B.length)) ≠ sDashDash ++ c.B)
+    (hio : l.ioff = 0) : ActOk c pend pp l (act pp l) := by
+  by_cases hpz : pre = []
+  · subst hpz
+    exact bnd0_hit_step c hc pp l pend hb hrn hs he hm (by simpa using hX) hio
+  by_cases hshort : pp.buf.length < 2 + c.B.length
+  · have hne : pp.buf.length ≠ pp.bufferSize := by rw [hb.size]; have := hc.bs; omega
+    have hms : mainSwitch pp l = (pp, l, .again) := by
+      simp only [mainSwitch, hs, hb.bnd, findBoundary_short pp c.B l.ioff _ _ hshort hne]
+    rw [act_main_again pp l _ _ hrn hms]
+    simp only [again_zero pp l hio, hb.fault]
+    refine ⟨by simp, hb, ?_, hio, rfl, fun _ => ?_, by simp⟩
+    · exact .main _ (Or.inl ⟨hrn, hX⟩) (.bnd0 pre hs he hm rfl hpre)
+    · exact Or.inr ⟨hrn, Or.inl ⟨Or.inl hs, by rw [hb.bnd]; exact hshort⟩⟩
+  · -- garbage before the first delimiter: skip to the next possible `-`
+    have hP : 0 < pre.length := List.length_pos_iff.mpr hpz
+    have hnm : slice pp.buf 0 2 ≠ sDashDash ∨ slice pp.buf 2 (2 + c.B.length) ≠ c.B := by
+      by_cases h1 : slice pp.buf 0 2 = sDashDash
+      · by_cases h2 : slice pp.buf 2 (2 + c.B.length) = c.B
+        · exfalso
+          apply hpre 0 hP
+          rw [← hX, Nat.zero_add, slice_app _ _ _ _ (by omega), slice_split pp.buf 0 2 _ (by omega) (by omega), h1, h2]
+        · exact Or.inr h2
+      · exact Or.inl h1
+    have hRP : (pp.buf ++ pend)[pre.length]? = some cDash := by
+      rw [hX]; simp [sDashDash]
+    obtain ⟨s, hs1, hs2, hs3, hms⟩ : ∃ s, 1 ≤ s ∧ s ≤ pp.buf.length ∧ s ≤ pre.length ∧
+        mainSwitch pp l = (pp, { l with ioff := l.ioff + s }, .again) := by
+      have hfb : ∀ s, findBoundary pp c.B l.ioff .processEntryHeaders .done = (pp, l.ioff + s, false) →
+          mainSwitch pp l = (pp, { l with ioff := l.ioff + s }, .again) := by
+        intro s hfbs
+        simp only [mainSwitch, hs, hb.bnd, hfbs]
+      cases hf : findByte cDash pp.buf with
+      | none =>
+        refine ⟨pp.buf.length, by omega, Nat.le_refl _, ?_, hfb _ (by simp [findBoundary, hshort, hnm, hs, hf])⟩
+        by_cases hle : pp.buf.length ≤ pre.length
+        · exact hle
+        · exfalso
+          have := findByte_none hf pre.length
+          rw [List.getElem?_append_left (by omega)] at hRP
+          exact this hRP
+      | some k =>
+        have hlt := findByte_lt _ _ _ hf
+        cases k with
+        | zero => exact ⟨1, Nat.le_refl _, by omega, hP, hfb _ (by simp [findBoundary, hshort, hnm, hs, hf])⟩
+        | succ k =>
+          refine ⟨k + 1, by omega, by omega, ?_, hfb _ (by simp [findBoundary, hshort, hnm, hs, hf])⟩
+          by_cases hle : k + 1 ≤ pre.length
+          · exact hle
+          · exfalso
+            have := (findByte_some hf).2 pre.length (by omega)
+            rw [List.getElem?_append_left (by omega)] at hRP
+            exact this hRP
+    rw [act_main_again pp l _ _ hrn hms]
+    rw [again_pos _ _ (by show 0 < l.ioff + s; omega) (by show l.ioff + s ≤ pp.buf.length; omega)]
+    refine ActOk.of_again ?_ ?_
+    · exact hb.fault
+    refine ⟨by simp, ⟨hb.size, hb.bnd, hb.xbuf, hb.fault⟩, ?_, rfl, rfl, fun h => ?_, by simp⟩
+    · show MInv c _ (pp.buf.drop (l.ioff + s) ++ pend)
+      have hX' : pp.buf.drop (l.ioff + s) ++ pend = pre.drop s ++ (sDashDash ++ c.B ++ afterB c.B c.items) := by
+        have := congrArg (List.drop s) hX
+        rw [List.drop_append_of_le_length hs2, List.drop_append_of_le_length hs3] at this
+        rw [hio, Nat.zero_add]; exact this
+      refine .main _ (Or.inl ⟨hrn, hX'⟩) (.bnd0 (pre.drop s) hs he hm rfl ?_)
+      intro k hk
+      rw [slice_drop pre _ s k _ hs3]
+      simp only [List.length_drop] at hk
+      have := hpre (s + k) (by omega)
+      rwa [show s + (k + (2 + c.B.length)) = s + k + (2 + c.B.length) by omega]
     · rcases h with h | h <;> simp at h
 
 theorem lineEnd_noCRLF : ∀ (l : Bytes), (∀ c ∈ l, c ≠ cCR ∧ c ≠ cLF) → lineEnd l = l.length
@@ -466,9 +550,6 @@ def valEv (q : PP) (nl : Nat) : Event :=
 def partPP (pp : PP) (nl : Nat) : PP :=
   { pp with evs := pp.evs ++ (if pp.mustIkvi = true ∨ nl ≠ 0 then [valEv pp nl] else []), mustIkvi := false, valueOffset := pp.valueOffset + nl }
 
-theorem if_fault (q : PP) (hf : q.fault = none) :
-    (if q.fault.isSome = true then Flow.ret else Flow.again) = Flow.again := by simp [hf]
-
 theorem pvtbDeliver_eq (q : PP) (ioff nl : Nat) (h : nl ≤ q.buf.length) :
     pvtbDeliver q ioff nl = (partPP q nl, ioff + nl, true) := by
   have : ¬ nl > q.buf.length := by omega
@@ -502,11 +583,6 @@ theorem pieces_extend {m : Meta} {v : Bytes} {off nl : Nat} {cur : List Event} (
   rw [List.take_add]
   apply Pieces.append hp
   refine ⟨hm, by rw [ho]; simp; omega, [], by simp [hd], rfl⟩
-
-theorem ActOk.of_again {c : Cfg} {pend : Bytes} {pp : PP} {l : ML} {q : PP} {l' : ML} (hf : q.fault = none)
-    (h : ActOk c pend pp l (q, l', .again)) :
-    ActOk c pend pp l (q, l', if q.fault.isSome = true then .ret else .again) := by
-  rw [if_fault q hf]; exact h
 
 theorem val_book {m : Meta} {v : Bytes} {off nl : Nat} {cur : List Event} (ev : Event) (mi : Bool)
     (hp : Pieces m 0 (v.take off) cur) (hi : cur ≠ [] ∨ mi = true) (hle : off ≤ v.length)
@@ -921,7 +997,7 @@ theorem act_spec (c : Cfg) (hc : CfgOk c) (pp : PP) (l : ML) (pend : Bytes) (hb 
     by_cases hrn : pp.skipRn = .inactive
     · have hX := rnok_inactive hr hrn
       cases hm with
-      | bnd0 hs he hm hX2 => exact bnd0_step c hc pp l pend hb hrn hs he hm (hX.trans hX2) hio
+      | bnd0 pre hs he hm hX2 hpre => exact bnd0_step c hc pp l pend hb hrn pre hs he hm (hX.trans hX2) hpre hio
       | hdr done p rest lines hsp hd hs hl hX2 =>
         exact hdr_step c hc pp l pend hb hrn done p rest lines hsp hd hs hl (hX.trans hX2) hne hio
       | chk done p rest hsp hd hs hm hi hX2 =>
